@@ -108,6 +108,16 @@ func runC09(r *simkit.Run, c Cfg) {
 	cids := make([]cid.Cid, ncids)
 	for i := range cids {
 		cids[i] = RawCid(fmt.Sprintf("c%d", i))
+		if i%3 == 1 {
+			// a different CID with the digest of the one before: another
+			// codec, or the version-0 form
+			prev := cids[i-1]
+			if i%2 == 0 {
+				cids[i] = cid.NewCidV1(cid.DagJSON, prev.Hash())
+			} else {
+				cids[i] = cid.NewCidV0(prev.Hash())
+			}
+		}
 	}
 	peers := []*Ident{Identity("P1"), Identity("P2"), Identity("P3"), Identity("P4")}
 	allowMode := tp.Choose(4, "allow") // 0 all, 1 subset, 2 changing, 3 none
